@@ -357,16 +357,32 @@ def describe(case, o):
 
 
 def matches_finding(f, case, o, v):
+    r = covering_findings([f], case, o, v)
+    return bool(r)
+
+
+def covering_findings(findings, case, o, v):
     """C06-fdiv-zero-q: f_divergence drops the outcomes where q = 0 < p instead of returning +inf.
-    Matches only when every failing goal of the case is a chi2 goal and such an outcome exists."""
-    if f.get('id') != 'C06-fdiv-zero-q' or case.get('kind') != 'pair':
-        return False
+    C06-alpha-zero-p: alpha_divergence with alpha > 1 only visits the outcomes stored in p, so q-mass where p = 0 is ignored.
+    Returns the listed findings that together explain EVERY failing goal of the case (None if some failing goal is unexplained)."""
+    if case.get('kind') != 'pair':
+        return None
     labels, verdicts = o.get('_goal_labels'), o.get('_goal_verdicts')
     if not labels or o.get('_pyviolation'):
-        return False
+        return None
     bad = [l for l, vv in zip(labels, verdicts) if vv == 'FAIL']
-    if not bad or not all("'k': 'chi2'" in l for l in bad):
-        return False
+    if not bad:
+        return None
     s1, s2 = case['specs'][0], case['specs'][1]
-    q = {tuple(oo): p for oo, p in zip(s2['outcomes'], s2['pmf'])}
-    return any(p > 0 and q.get(tuple(oo), 0.0) == 0 for oo, p in zip(s1['outcomes'], s1['pmf']))
+    p = {tuple(oo): x for oo, x in zip(s1['outcomes'], s1['pmf'])}
+    q = {tuple(oo): x for oo, x in zip(s2['outcomes'], s2['pmf'])}
+    by_id = {f.get('id'): f for f in findings}
+    used = {}
+    for l in bad:
+        if "'k': 'chi2'" in l and 'C06-fdiv-zero-q' in by_id and any(x > 0 and q.get(k, 0.0) == 0 for k, x in p.items()):
+            used['C06-fdiv-zero-q'] = by_id['C06-fdiv-zero-q']
+        elif "'g': 'alpha', 'a': '2'" in l and 'C06-alpha-zero-p' in by_id and any(x > 0 and p.get(k, 0.0) == 0 for k, x in q.items()):
+            used['C06-alpha-zero-p'] = by_id['C06-alpha-zero-p']
+        else:
+            return None
+    return list(used.values())
